@@ -124,11 +124,16 @@ class Codec:
             if key not in self.shared:
                 self.shared[key] = self.dec({k: x for k, x in v.items() if k != '$share'})
             return self.shared[key]
+        if '$originref_of' in v:
+            # the caller reads the reference back from an origin it created and passes it on: origin_reference=o.origin_reference
+            return self.objs[v['$originref_of']].origin_reference
         if '$ref' in v:
             return self.objs[v['$ref']]
         if '$dt' in v:
             d = _dt.datetime.fromisoformat(v['$dt'])
             tz = _tz(v.get('tz'))
+            if v.get('fold'):
+                d = d.replace(fold=1)          # the second occurrence of a wall-clock time repeated when DST ends
             return d.replace(tzinfo=tz) if tz is not None else d
         if '$enum' in v:
             from dliswriter import enums
@@ -171,6 +176,8 @@ def refs_in(v, out=None):
     elif isinstance(v, dict):
         if '$ref' in v:
             out.append(v['$ref'])
+        elif '$originref_of' in v:
+            out.append(v['$originref_of'])
         else:
             for x in v.values():
                 refs_in(x, out)
